@@ -1070,6 +1070,31 @@ def m_poll_map(px, st, fr, ev):
     return [a, b]
 
 
+@model("std::task::Poll::<std::option::Option<std::result::Result<T, E>>>::map_ok",
+       "std::task::Poll::<std::option::Option<std::result::Result<T, E>>>::map_err",
+       reason="Pending, Ready(None) and the other Result variant unchanged; Ready(Some(Ok(x))) -> Ready(Some(Ok(f(x)))) (map_err: the Err side)")
+def m_poll_opt_res_map(px, st, fr, ev):
+    t, f = ev["args"][0], ev["args"][1]
+    which = "Ok" if (ev["callee"].get("path") or "").endswith("map_ok") else "Err"
+    p1 = payload(t, "Ready")
+    p2 = payload(p1, "Some")
+    rdy = lambda v: agg("adt", "std::task::Poll", "Ready", (("0", v),))
+    outs = [{"label": "Pending", "assume": (lambda c: c.set_variant(t, "Pending")), "value": agg("adt", "std::task::Poll", "Pending", ())},
+            {"label": "Ready(None)", "assume": (lambda c: c.set_variant(t, "Ready") and c.set_variant(p1, "None")), "value": rdy(NONE)}]
+    for v, ctor in (("Ok", ok), ("Err", err)):
+        o = {"label": "Ready(Some(%s))" % v,
+             "assume": (lambda c, v=v: c.set_variant(t, "Ready") and c.set_variant(p1, "Some") and c.set_variant(p2, v))}
+        if v == which:
+            frag = _inl(px, f, [payload(p2, v)], (lambda x, ctor=ctor: rdy(some(ctor(x)))), ev)
+            if frag is None:
+                return None
+            o.update(frag)
+        else:
+            o["value"] = rdy(some(ctor(payload(p2, v))))
+        outs.append(o)
+    return outs
+
+
 # ------------------------------------------------------------------ integers
 
 def bits_of(ev):
